@@ -27,7 +27,7 @@ SITES = {
     ('SetIds', 'ids2indices-vs-ids'): ('FEMAttribute.ids.setter', 'ids_setter_refreshes_id2index'),
     ('read', 'iloc-scalar-ids'): ('_Indexer.__getitem__', 'scalar_key_uses_label'),
 }
-PATH_NAMES = {0: 'raises', 1: 'ids', 2: 'data', 3: 'data_frame', 4: 'loc[list]', 5: 'loc[scalar]',
+PATH_NAMES = {11: 'FEMAttributes.filter_with_ids', 12: 'FEMAttributes.extract_dict', 0: 'raises', 1: 'ids', 2: 'data', 3: 'data_frame', 4: 'loc[list]', 5: 'loc[scalar]',
               6: 'iloc[list]', 7: 'iloc[scalar]', 8: '__getitem__', 9: 'filter_with_ids',
               10: 'ids2indices', 98: 'constructor', 99: 'op-outside-model-domain'}
 
@@ -78,12 +78,15 @@ def b(x):
 
 def obs_l(o):
     return ('{|o_raised:=%s;o_ids:=%s;o_data:=%s;o_frame:=%s;o_q:=%s;o_q1:=%s;o_ks:=%s;o_k1:=%s;'
-            'o_loc:=%s;o_loc1:=%s;o_iloc:=%s;o_iloc1:=%s;o_getitem:=%s;o_filter:=%s;o_i2i:=%s|}') % (
+            'o_loc:=%s;o_loc1:=%s;o_iloc:=%s;o_iloc1:=%s;o_getitem:=%s;o_filter:=%s;o_i2i:=%s;'
+            'o_cq:=%s;o_cfilter:=%s;o_cextract:=%s|}') % (
         b(o.get('raised')), zl(o['ids']), opt(o['data'], rows_l), table_l(o['frame']),
         zl(o['q']), (str(o['q1']) if o['q1'] >= 0 else f"({o['q1']})"), nl(o['ks']), f"{o['k1']}%nat",
         opt(o['loc'], table_l), opt(o['loc1'], table_l), opt(o['iloc'], table_l),
         opt(o['iloc1'], table_l), opt(o['getitem'], rows_l), opt(o['filter'], table_l),
-        opt(o['i2i'], nl))
+        opt(o['i2i'], nl), zl(o.get('cq') or []),
+        opt(o.get('cfilter'), lambda ts_: '[' + ';'.join(table_l(t) for t in ts_) + ']'),
+        opt(o.get('cextract'), lambda rs_: '[' + ';'.join(rows_l(r) for r in rs_) + ']'))
 
 
 def sel_l(s):
@@ -113,8 +116,9 @@ def op_l(o):
 def case_l(r):
     init = r['init']
     steps = ';'.join(f'({op_l(s["op"])},{obs_l(s["obs"])})' for s in r['steps'])
+    others = '[' + ';'.join(f'({zl(o["ids"])},{rows_l(o["rows"])},{b(o["ts"])})' for o in init.get('others', [])) + ']'
     return (f'({r["id"]}%nat, check_case cfg {zl(init["ids"])} {rows_l(init["rows"])} {b(init["gen"])} '
-            f'{b(init["ts"])} {obs_l(r["obs0"])} [{steps}])')
+            f'{b(init["ts"])} {others} {obs_l(r["obs0"])} [{steps}])')
 
 
 HEADER = ('From Coq Require Import ZArith List Bool.\nImport ListNotations.\n'
@@ -177,6 +181,8 @@ def disagreements(o):
         out.add('whole-table-read-raises')
     if o['gen'] and f['i2i'] != list(range(len(o['ids']))):
         out.add('ids2indices-vs-ids')
+    if f.get('cfilter_bad'):
+        out.add('collection-filter-vs-member')
     if f['loc1_bad']:
         out.add('loc-scalar')
     if f['iloc1_bad']:
@@ -205,8 +211,8 @@ def oracle_case(r):
 def shrink_prefix(r, step):
     """history up to the offending step (self-contained replay case)"""
     return {'init': r['init'], 'ops': [s['op'] for s in r['steps'][:step]],
-            'queries': [[r['obs0'][k] for k in ('q', 'q1', 'ks', 'k1')]] +
-                       [[s['obs'][k] for k in ('q', 'q1', 'ks', 'k1')] for s in r['steps'][:step]]}
+            'queries': [[r['obs0'].get(k) for k in ('q', 'q1', 'ks', 'k1', 'cq')]] +
+                       [[s['obs'].get(k) for k in ('q', 'q1', 'ks', 'k1', 'cq')] for s in r['steps'][:step]]}
 
 
 # ------------------------------------------------------------ elemental cases
@@ -424,6 +430,8 @@ def main(ctx):
         ctx.count('rows:' + ('time-series' if init['ts'] else
                             {0: 'scalar', 1: 'vector', 2: 'tensor'}[len(init['tail'])]))
         ctx.count('id2index:' + ('yes' if init['gen'] else 'no'))
+        ctx.count('dtype:' + init.get('dtype', 'float64'))
+        ctx.count('other-members:%d' % len(init.get('others', [])))
         n_ok = 0
         for s in r['steps']:
             ctx.count('op:' + s['op']['k'] + (':raised' if s['obs']['raised'] else ''))
